@@ -10,9 +10,7 @@
    builder / batch writer below the list of key-value records is C07 / C15.
 
    A file is the list of its lines (bufio.ScanLines already applied: no newline inside a
-   line, lines shorter than the 64 KiB token limit).  io.Copy reads through a 32 KiB
-   buffer, so the reader's own buffer (at most 511 bytes plus one line) is drained
-   completely by every Read as long as lines are shorter than about 31 KiB: assumed.
+   line, lines shorter than the 64 KiB token limit).
    No proofs in this file. *)
 From DnsV Require Export Model.Text.
 Open Scope N_scope.
@@ -41,34 +39,23 @@ Definition pre_line (o : toracles) (pserial : N) (l : bytes) : result (list byte
   | _ => Ok ([l], [])
   end.
 
-Definition lines_size (ls : list bytes) : N := fold_right (fun l a => nlen l + 1 + a) 0 ls.
-
-(* Read/Scan over the input lines.  [buffered] = bytes written to the reader's buffer since
-   the last Read returned; a Read returns once 512 bytes are buffered.  A decode error that
-   strikes while the buffer is empty is LOST: Read returns what bytes.Buffer.Read returns on
-   an empty buffer, (0, io.EOF), and io.Copy ends without error (result [Ok] with the
-   output cut short, flag true).  Otherwise the next Read reports it. *)
-Fixpoint pre_go (o : toracles) (pserial : N) (f : list bytes) (buffered : N) (out : list bytes) (nets : list record)
-  : result (list bytes * list record * bool) :=
+(* Read/Scan over the input lines.  A decode error ends the run with that error: Read hands out
+   what is buffered and reports p.Err() on the next call, or at once when nothing is buffered
+   (since /repo befa5ab; before, an error striking on an empty buffer was lost as io.EOF and
+   Preprocess returned nil with the output cut short).  The 512-byte buffering therefore has
+   no effect on the result and is not modelled. *)
+Fixpoint pre_go (o : toracles) (pserial : N) (f : list bytes) : result (list bytes * list record) :=
   match f with
-  | [] => Ok (out, nets, false)
+  | [] => Ok ([], [])
   | l :: t =>
-    match pre_line o pserial l with
-    | Err e => if buffered =? 0 then Ok (out, nets, true) else Err e
-    | Ok (ls, ns) =>
-      let b := buffered + lines_size ls in
-      pre_go o pserial t (if 512 <=? b then 0 else b) (out ++ ls) (nets ++ ns)
-    end
+    rbind (pre_line o pserial l) (fun a =>
+    rbind (pre_go o pserial t) (fun b => Ok (fst a ++ fst b, snd a ++ snd b)))
   end.
 
 (* Codec.Preprocess: the lines written; the '!' lines follow the input lines *)
 Definition preprocess (o : toracles) (rearrange : list record -> list record) (pserial : N) (f : list bytes)
   : result (list bytes) :=
-  match pre_go o pserial f 0 [] [] with
-  | Err e => Err e
-  | Ok (out, nets, true) => Ok out                      (* swallowed error: no accumulator lines either *)
-  | Ok (out, nets, false) => Ok (out ++ map (marshal o) (rearrange nets))
-  end.
+  rbind (pre_go o pserial f) (fun a => Ok (fst a ++ map (marshal o) (rearrange (snd a)))).
 
 (* ------------------------------------------------------------------ the compiler's view *)
 (* parser.go parse: bytes.TrimLeft(line, " "); lines shorter than 2 bytes and comments are skipped *)
